@@ -895,13 +895,15 @@ def encoder_values(S, rng, n, np, R):
     out.append(den)
     v = np.concatenate([np.asarray(a, dtype=np.float64) for a in out])
     v = v[np.isfinite(v)]
-    return np.unique(v.view(np.uint64)).view(np.float64)
+    v = np.unique(v.view(np.uint64)).view(np.float64)
+    is68 = np.isin(v.view(np.uint64), np.concatenate([out[0], out[1]]).view(np.uint64))    # decoded code 68 words
+    return v, is68
 
 
 def leg_d_encoders(S, mods, rng, n, np, R, which=('user', 'p', 'c', 'cp')):
     RepCode, p, c, cp = mods
     rec = S.rec
-    vals = encoder_values(S, rng, n, np, R)
+    vals, vals_is68 = encoder_values(S, rng, n, np, R)
     impls = []
     if 'p' in which:
         impls.append(('pRepCode.to68', p.to68))
@@ -964,7 +966,17 @@ def leg_d_encoders(S, mods, rng, n, np, R, which=('user', 'p', 'c', 'cp')):
                     rec.violation('encoder_bound', 'relative-error', '%s(%r) = %#x decodes to %r: relative error %.3g >= 2^-22' % (
                         name, vl[i], int(warr[i]), float(dec[i]), float(abs(d - x) / abs(x))),
                         {'impl': name, 'value': vl[i].hex(), 'word': int(warr[i]), 'decoded': float(dec[i]).hex(), 'build': S.under or 'plain'})
-            # re-encode the decoded value: must decode to the same value
+            # v is itself the value of a code 68 word: its encoding must decode to v
+            m68 = vals_is68[a:a + BATCH]
+            rec.mon('encoder_equivalence', int(m68.sum()))
+            for i in np.nonzero(m68 & ~(dec == chunk))[0][:CAP * 2].tolist():
+                key = (name, 'equiv-v', 'min' if vl[i] == -two127 else 'other')
+                if S.want(key, False):
+                    rec.violation('encoder_equivalence', 'decode-encode-decode', '%s: code 68 value %r encodes to %#x which decodes to %r' % (
+                        name, vl[i], int(warr[i]), float(dec[i])),
+                        {'impl': name, 'value': vl[i].hex(), 'word': None, 'reencoded': int(warr[i]), 'redecoded': float(dec[i]).hex(),
+                         'build': S.under or 'plain'})
+            # idempotence: re-encode the decoded value of the produced word; it must decode to the same value
             dl = dec.tolist()
             fn = dict(impls)[name]
             ws2, _ = call_list(fn, dl)
@@ -1138,13 +1150,17 @@ def report_sanitizer_blocks(S, blocks, leg):
     for key, (cnt, b) in sorted(seen.items()):
         table['%s [%s]' % (key, leg)] = table.get('%s [%s]' % (key, leg), 0) + cnt
         f = b['file']
-        in_tree = f.startswith(os.path.join(env.REPO, 'src') + os.sep)
+        # debug info keeps the path of the tree the cached build was made from; identical native sources hash to the
+        # same build directory whatever $VERIF_REPO is, so locate the file by its path below src/
+        rel = f[f.index('/src/TotalDepth/') + 1:] if '/src/TotalDepth/' in f else None
+        in_tree = rel is not None and os.path.exists(os.path.join(env.REPO, rel))
         generated = f.startswith(env.BUILD + os.sep) and os.path.basename(f).startswith(('cRepCode', 'cFrameSet'))
         if not (in_tree or generated):
             rec.inconclusive_because('sanitizer report outside the tree sources (%s): %s %s:%d %s' % (leg, b['tool'], f, b['line'], b['message'][:200]))
             continue
-        wit = {'tool': b['tool'], 'kind': b['kind'], 'message': b['message'], 'file': os.path.relpath(f, env.REPO) if in_tree else f,
-               'line': b['line'], 'function': b['function'], 'source_text': source_text(f, b['line']), 'leg': leg, 'blocks': cnt,
+        here = os.path.join(env.REPO, rel) if in_tree else f
+        wit = {'tool': b['tool'], 'kind': b['kind'], 'message': b['message'], 'file': rel if in_tree else f,
+               'line': b['line'], 'function': b['function'], 'source_text': source_text(here, b['line']), 'leg': leg, 'blocks': cnt,
                'frames': b['frames'][:6]}
         rec.violation('sanitizer', '%s:%s' % (b['tool'], b['kind'][:60]), '%s in %s:%d (%s): %s' % (b['tool'], wit['file'], b['line'], b['function'], b['message'][:200]), wit)
 
